@@ -517,3 +517,45 @@ pub fn fo_from_parts_1<F: Future>(
     let fu = crate::FuturesUnordered::verif_from_parts(groups, rem, 0);
     crate::FuturesOrdered::verif_from_parts(fu, next_in, next_out)
 }
+
+// ------------------------------------------------------- the slot map by itself (Layer S)
+
+/// `PinSlotMap<u8>` behind a public API
+pub struct SlotMapU8(crate::slot_map::PinSlotMap<u8>);
+
+impl SlotMapU8 {
+    pub fn from_parts(cap: usize, slot: impl FnMut(usize) -> Result<u8, usize>, free_head: usize) -> Self {
+        SlotMapU8(crate::slot_map::PinSlotMap::verif_from_parts(cap, slot, free_head))
+    }
+    pub fn insert(&mut self, x: u8) -> Result<usize, u8> {
+        self.0.insert_with(x, |x| x)
+    }
+    pub fn remove(&mut self, key: usize) {
+        self.0.remove(key)
+    }
+    pub fn get(&mut self, key: usize) -> Option<u8> {
+        self.0.get(key).map(|p| *p)
+    }
+    pub fn len(&self) -> usize {
+        self.0.len()
+    }
+    pub fn is_empty(&self) -> bool {
+        self.0.is_empty()
+    }
+    pub fn capacity(&self) -> usize {
+        self.0.capacity()
+    }
+    pub fn next_free(&self, i: usize) -> Option<usize> {
+        self.0.verif_next_free(i)
+    }
+    pub fn free_head(&self) -> usize {
+        self.0.verif_free_head()
+    }
+}
+
+/// layout arithmetic of the real waker list for capacity `cap`:
+/// (block size, block align, offset of slot 0, slot size, slot align, header size)
+#[cfg(not(futures_buffered_verif_model))]
+pub fn real_layout(cap: usize) -> (usize, usize, usize, usize, usize, usize) {
+    WakerList::verif_layout(cap)
+}
